@@ -911,7 +911,9 @@ fn selftest_main(check: &dyn Check, a: &Args, n: u64) -> ! {
     if !diverged.is_empty() {
         harness_error(&format!("self-test: divergent cases {:?}", &diverged[..diverged.len().min(10)]));
     }
-    let p = verif_root().join("evidence").join(format!("{}.determinism.json", check.id()));
+    let dir = verif_root().join("selftest");
+    let _ = std::fs::create_dir_all(&dir);
+    let p = dir.join(format!("{}.json", check.id()));
     let _ = std::fs::write(p, serde_json::to_vec_pretty(&json!({"property_id": check.id(), "cases": n, "executions_per_case": 2, "worker_counts": [16, 5], "divergent": 0})).unwrap());
     std::process::exit(0);
 }
